@@ -308,14 +308,25 @@ def jobs_graph(tier, cyclic, prefix):
         if n == 3 and quick:
             ins = [['F0.txtpp'], ['F2.txtpp', 'F0.txtpp'], ['.']] if cyclic else \
                   [['F0.txtpp'], ['F0.txtpp', 'F1.txtpp'], ['F2.txtpp', 'F0.txtpp'], ['.'], ['F1', 'F1.txtpp', 'F0.txtpp']]
+        if n == 3 and not quick and cyclic:
+            # all digraphs on 3 files (no out-degree bound) for selections of one or two files and alias spellings; selecting all three
+            # files at once multiplies this by the interleavings of three independent first passes (hours) and stays at out-degree <= 2
+            ins = [['F0.txtpp'], ['F1.txtpp'], ['F0.txtpp', 'F1.txtpp'], ['F1.txtpp', 'F2.txtpp'], ['F2.txtpp', 'F0.txtpp'], ['F0', './F0.txtpp'],
+                   ['F0.txtpp', 'sub/../F0.txtpp'], ['F1', 'F0', 'F1.txtpp']]
         if n == 4:
             ins = [['F0.txtpp'], ['F0.txtpp', 'F2.txtpp'], ['.'], ['F3.txtpp', 'F0.txtpp']]
+            if cyclic:
+                ins = [['F0.txtpp'], ['F0.txtpp', 'F2.txtpp']]          # with cycles allowed the 4-file space is much larger: out-degree <= 1, two selections
         for inp in ins:
             p = {'n': n, 'inputs': inp, 'acyclic_only': not cyclic, 'allow_self': cyclic}
             if n == 4 or (n == 3 and quick and cyclic):
-                p['max_deps'] = 2
+                p['max_deps'] = 2 if not (n == 4 and cyclic) else 1
             js.append({'name': '%s n=%d inputs=%s' % (prefix, n, ','.join(inp)), 'harness': (H, 'h_sched'), 'params': p,
                        'split': 16 if n >= 3 else 1, 'max_steps': 4_000_000})
+        if n == 3 and not quick and cyclic:
+            for inp in (['.'], ['F2.txtpp', 'F0.txtpp', 'F1.txtpp']):
+                js.append({'name': '%s n=3 inputs=%s out-degree<=2' % (prefix, ','.join(inp)), 'harness': (H, 'h_sched'),
+                           'params': {'n': 3, 'inputs': inp, 'acyclic_only': False, 'allow_self': True, 'max_deps': 2}, 'split': 16, 'max_steps': 4_000_000})
     return js
 
 
